@@ -251,7 +251,7 @@ PROPS["C02"] = {
                   "as possibility from every reachable state (C02_can_always_deliver) and, from good states, as bounded termination of every "
                   "fault-free run in the all-confirmed state (C02_healthy_future_confirms_everything); that the real goroutines do take their "
                   "steps (fairness of the Go scheduler) is assumed, and a session with a chunk stranded by an unknown-id ACK is covered by "
-                  "the possibility theorem only; the harness reports a client that fails to finish within 8 s of a stop request.",
+                  "the possibility theorem only; the harness reports a client that fails to finish within 25 s of a stop request.",
     "partial": "liveness: possibility from every state, bounded schedule-independent delivery from good states; scheduler fairness assumed; real scheduling sampled",
     "assumptions": ["ClosableClientConnection.Close unblocks pending SendChunk / ReadChunkAck",
                     "chunk ids in the queue are distinct and increasing (C11_ids_increasing)"],
